@@ -628,6 +628,128 @@ def run(chk: lib.Check):
                                                      models_built_per_way_from_one_specification_object=repeat_stats)
         lap("render-impl")
 
+        # ---------------- E. cached files with arbitrary BYTES, and every render() keyword with an empty cache + fallback
+        # E1: what is served is the conversion of exactly the cached bytes (independent inverse of each format, no
+        #     capellambse code): line endings, BOM, non-ASCII, long lines, trailing blanks, CDATA-like and quote characters.
+        long_line = b"<svg>" + b"x" * 70000 + b"</svg>"
+        BYTE_FILES = [
+            b"<svg>\r\n<g/>\r\n</svg>\r\n", b"<svg>a\rb</svg>", b"<svg>\r</svg>\r", b"\r\n", b"\n\r\n\r", b"<svg>\n</svg>\n\n\n", b"<svg/>   \t ",
+            b"\xef\xbb\xbf<svg/>", b"\xef\xbb\xbf<?xml version=\"1.0\"?>\r\n<svg/>", "<svg>Ä€\U0001f600  \x85</svg>".encode("utf-8"),
+            long_line, b"", b" ", b"<svg>\x00\x0b\x0c\x1c\x1d\x1e</svg>", b"<svg a=\"'&amp;<>\">]]&gt;</svg>", b"<svg>\xff\xfe</svg>", b"\xc3",
+        ]
+        alphabet = [b"\r", b"\n", b"\r\n", b" ", b"\t", b"<svg>", b"</svg>", "ä".encode(), " ".encode(), b"\xef\xbb\xbf", b"\x0c", b"\x85", b"x", b'"']
+        for _ in range(12 if quick else 200):
+            BYTE_FILES.append(b"".join(rng.choice(alphabet) for _ in range(rng.randint(1, 12))))
+        bdir = tmp / "bytes-cache"
+        bdir.mkdir()
+        m_dir = capellambse.MelodyModel(aird, diagram_cache=str(bdir))
+        e_stats = {"byte_contents": len(BYTE_FILES), "renders": 0, "with_CR": 0, "with_BOM": 0, "not_utf8": 0, "kwargs_compared": 0, "pretty_differs_from_compact": 0}
+        URI = "data:image/svg+xml;base64,"
+        CONF = re.compile(r'<ac:structured-macro ac:macro-id="[0-9a-f-]{36}" ac:name="html" ac:schema-version="1">'
+                          r'<ac:plain-text-body><!\[CDATA\[(.*)\]\]></ac:plain-text-body></ac:structured-macro>', re.S)
+
+        def unchunk(v):
+            chunks = re.findall(rb"\x1b_Ga=T,q=2,f=100,m=[01];([A-Za-z0-9+/=]*)\x1b\\", v) if isinstance(v, bytes) else None
+            return None if chunks is None else base64.standard_b64decode(b"".join(chunks))
+
+        for bi, content in enumerate(BYTE_FILES):
+            e_stats["with_CR"] += b"\r" in content
+            e_stats["with_BOM"] += content.startswith(b"\xef\xbb\xbf")
+            try:
+                text = content.decode("utf-8")
+            except UnicodeDecodeError:
+                text = None
+                e_stats["not_utf8"] += 1
+            for hname, model_e in (("handler-object", m0), ("directory", m_dir)):
+                for ext in (".svg", ".png"):
+                    files = {uu + ext: content, other + ext: b"<svg>B</svg>"}
+                    if hname == "directory":
+                        for n in os.listdir(bdir):
+                            (bdir / n).unlink()
+                        for n, c in files.items():
+                            (bdir / n).write_bytes(c)
+                    else:
+                        rec.files = files
+                    dg = model_e.diagrams[ia]
+                    for fmt in [f for f in rt_names if f != "svgdiagram"]:
+                        in_chain = [getattr(c, "filename_extension", None) for c in own_chain(fmt)]
+                        if ext not in in_chain:
+                            continue
+                        res = outcome(lambda: dg.render(fmt))
+                        e_stats["renders"] += 1
+                        if ext == ".svg" and text is None:
+                            ok, exp = isinstance(res, Err), "an error (the cached file is not UTF-8)"
+                        elif ext == ".svg":
+                            if fmt == "svg":
+                                ok = res == text and isinstance(res, str)
+                            elif fmt == "datauri_svg":
+                                ok = res == URI + base64.standard_b64encode(content).decode("ascii")
+                            elif fmt == "html_img":
+                                ok = str(res) == '<img src="' + URI + base64.standard_b64encode(content).decode("ascii") + '"/>'
+                            elif fmt == "svg_confluence":
+                                m_ = CONF.fullmatch(res) if isinstance(res, str) else None
+                                ok = m_ is not None and m_.group(1) == text
+                            elif fmt == "png":
+                                ok = (res == PNG_STUB + content) if stub_used else True
+                            else:
+                                ok = (unchunk(res) == PNG_STUB + content) if stub_used else True
+                            exp = "the conversion of exactly the cached bytes"
+                        else:
+                            ok = (res == content and isinstance(res, bytes)) if fmt == "png" else unchunk(res) == content
+                            exp = "exactly the cached bytes" + ("" if fmt == "png" else " in terminal-graphics chunks")
+                        key = f"bytes:{hname}:{ext}:{fmt}:{content[:40]!r}:{len(content)}"
+                        chk.note_case(key, nontrivial=True)
+                        if not ok:
+                            chk.violation(key, f"render({fmt!r}) with {uu}{ext} = {content[:60]!r} ({len(content)} bytes) cached ({hname}) returned "
+                                          f"{res!r:.120}; expected {exp}",
+                                          {"cache": hname, "cached_file": uu + ext, "content_latin1": content.decode("latin-1")[:2000], "content_length": len(content),
+                                           "fmt": fmt, "result": repr(res)[:400]})
+        # E2: a configured cache without a usable file + fallback == no cache configured, for every keyword of render()/save()
+        fb_rec = RecHandler({other + ".svg": b"<svg>B</svg>", "index.json": b"[]"})
+        m_fb = capellambse.MelodyModel(aird, diagram_cache=fb_rec, fallback_render_aird=True)
+        KWARGS = [{}, {"pretty_print": False}, {"pretty_print": True}, {"c19_unknown_parameter": 1}, {"pretty_print": True, "c19_unknown_parameter": 1}]
+
+        def flat(v, kw):
+            if type(v).__name__ == "SVGDiagram":
+                return ("SVGDiagram", v.to_string(), outcome(lambda: v.to_string(pretty_print=True)))
+            if type(v).__name__ == "Diagram":
+                return ("Diagram", sorted(str(e.uuid) for e in v))
+            return (type(v).__name__, v)
+
+        for which in (ia, ib):
+            for fmt in fmts:
+                compact = None
+                for kw in KWARGS:
+                    for via in ("render", "save"):
+                        if via == "save" and (fmt is None or fmt == "svgdiagram"):
+                            continue
+
+                        def call(model_, kw=kw, via=via, fmt=fmt):
+                            dg_ = model_.diagrams[which]
+                            if via == "render":
+                                return flat(dg_.render(fmt, **kw), kw)
+                            buf = io.BytesIO()
+                            dg_.save(buf, fmt, **kw)
+                            return ("saved", buf.getvalue())
+                        want, got = outcome(lambda: call(nocache)), outcome(lambda: call(m_fb))
+                        e_stats["kwargs_compared"] += 1
+                        if via == "render" and fmt == "svg" and not isinstance(want, Err):
+                            if kw == {}:
+                                compact = want
+                            elif kw == {"pretty_print": True} and want != compact:
+                                e_stats["pretty_differs_from_compact"] += 1
+                        key = f"kwargs:{via}:{fmt}:{sorted(kw)}:{kw.get('pretty_print')}:dg={'A' if which == ia else 'B'}"
+                        chk.note_case(key, nontrivial=bool(kw))
+                        if want != got:
+                            chk.violation(key, f"{via}({fmt!r}, **{kw}) with a cache that has no file of the diagram and fallback_render_aird=True gives "
+                                          f"{got!r:.120}; without a cache it gives {want!r:.120}",
+                                          {"call": via, "fmt": fmt, "kwargs": repr(kw), "diagram_uuid": all_dgs[which].uuid, "cache_files": sorted(fb_rec.files),
+                                           "fallback_render_aird": True, "with_cache": repr(got)[:400], "without_cache": repr(want)[:400]})
+        if not e_stats["pretty_differs_from_compact"]:
+            chk.broken.append("harness: pretty_print=True gives the same svg as the default for both subject diagrams; the keyword comparison is vacuous")
+        chk.coverage["cached_bytes_and_render_keywords"] = e_stats
+        lap("bytes+keywords")
+
         # ---------------- D. the cache handle as an OBJECT in any state, and every way of naming a LOCATION with every option
         # Files with distinguishable content are planted in the configured place AND in decoy places (next to the model, at
         # the cache root when a sub-directory is configured, in a sibling sub-directory): the oracle tells which file was
@@ -1039,7 +1161,7 @@ def run(chk: lib.Check):
     chk.coverage["exhaustive"] = True
     chk.assumptions += [
         "converters' own behaviour (convert/from_cache) and the internal renderer are parameters of the theorems; the harness inverts the real converters textually to recover which file and which conversions produced a result",
-        "pretty_print=True is not modelled (the cache path ignores it); _repr_mimebundle_ is out of scope of the statement",
+        "pretty_print / render parameters are not modelled in Coq (a cache hit ignores them); the harness compares every keyword combination of render()/save() between an empty cache with fallback and no cache; _repr_mimebundle_ is out of scope of the statement",
         "cyclic `depends` graphs (would make _walk_converters loop) are excluded: the generated graph is checked acyclic by computation on every run",
     ]
 
